@@ -1299,8 +1299,67 @@ func suffixPred(allowed []string) func(cond ssa.Value, val bool) bool {
 			return false
 		}
 		s, isConst := constString(call.Call.Args[1])
-		return isConst && ok[s]
+		if isConst {
+			return ok[s]
+		}
+		// an element of a package-level list of suffixes, all of which are allowed
+		if list, isList := globalStringList(call.Call.Args[1]); isList && len(list) > 0 {
+			for _, e := range list {
+				if !ok[e] {
+					return false
+				}
+			}
+			return true
+		}
+		return false
 	}
+}
+
+// globalStringList: v is an element of a package-level []string that is initialised once with constants.
+func globalStringList(v ssa.Value) ([]string, bool) {
+	ld, isLoad := v.(*ssa.UnOp)
+	if !isLoad {
+		return nil, false
+	}
+	ia, isIA := ld.X.(*ssa.IndexAddr)
+	if !isIA {
+		return nil, false
+	}
+	sl, isLoad2 := ia.X.(*ssa.UnOp)
+	if !isLoad2 {
+		return nil, false
+	}
+	g, isGlobal := sl.X.(*ssa.Global)
+	if !isGlobal || g.Pkg == nil {
+		return nil, false
+	}
+	var out []string
+	stores := 0
+	for _, m := range g.Pkg.Members {
+		fn, isFn := m.(*ssa.Function)
+		if !isFn {
+			continue
+		}
+		allInstrs(fn, func(in ssa.Instruction) {
+			st, isStore := in.(*ssa.Store)
+			if !isStore || st.Addr != ssa.Value(g) {
+				return
+			}
+			stores++
+			if s2, isSlice := st.Val.(*ssa.Slice); isSlice {
+				for _, e := range variadicElems(s2) {
+					if cs, isC := constString(e); isC {
+						out = append(out, cs)
+					} else {
+						stores += 10
+					}
+				}
+			} else {
+				stores += 10
+			}
+		})
+	}
+	return out, stores == 1
 }
 
 func (c *Ctx) matchPred(patName string) func(cond ssa.Value, val bool) bool {
